@@ -729,6 +729,18 @@ class Interp:
         ev = self.eval_test(e, p)
         if ev is not None:
             return ev == truth
+        # a + b <= c with a, b >= 0 and c == 0 forces a == b == 0 (sum of non-negatives)
+        if isinstance(e, ast.Compare) and len(e.ops) == 1 and isinstance(e.left, ast.BinOp) and isinstance(e.left.op, ast.Add):
+            op = e.ops[0]
+            if (isinstance(op, ast.Gt) and not truth) or (isinstance(op, ast.LtE) and truth):
+                c = self.eval(e.comparators[0], p, False)
+                va, vb = self.eval(e.left.left, p, False), self.eval(e.left.right, p, False)
+                if _is_num(c) and c.v <= 0 and sign_of(va) in ("+", "0") and sign_of(vb) in ("+", "0"):
+                    if c.v < 0:
+                        return False
+                    for x in (e.left.left, e.left.right):
+                        if isinstance(x, ast.Name) and x.id in p.env:
+                            p.env[x.id] = (Const(0), p.env[x.id][1])
         at = self._atom(e, p)
         if at is None:
             if isinstance(e, (ast.Name, ast.Attribute)):
@@ -1019,6 +1031,12 @@ class Interp:
     def _diff_sign(self, e: ast.AST, p: Part) -> str:
         """sign of an expression `a - b` from the order facts on (a, b); of a term from facts against 0"""
         if isinstance(e, ast.BinOp) and isinstance(e.op, ast.Sub):
+            # value-level signs: (<=0) - (>=0) <= 0 ; (>=0) - (<=0) >= 0
+            sa_, sb_ = sign_of(self.eval(e.left, p, False)), sign_of(self.eval(e.right, p, False))
+            if sa_ in ("-", "0") and sb_ in ("+", "0"):
+                return "-"
+            if sa_ in ("+", "0") and sb_ in ("-", "0"):
+                return "+"
             a, b = self.term(e.left, p), self.term(e.right, p)
             if a and b:
                 r = p.pa.get(a, b)
